@@ -75,6 +75,11 @@ pub mod verif_hooks {
         super::sanity::verif_verify_no_overlap_contiguous(a, b)
     }
 
+    /// Clear lock poisoning left by a caught sanity-check panic.
+    pub fn sanity_clear_poison() {
+        super::sanity::verif_clear_poison()
+    }
+
     /// Size of the metadata address range a contiguous spec covers.
     pub fn metadata_address_range_size(s: &SideMetadataSpec) -> usize {
         super::helpers::metadata_address_range_size(s)
